@@ -324,15 +324,14 @@ Section ModelCase.
       assert (Hap : st_applied_index sp' = N.of_nat (pos + len)).
       { rewrite <- Hli. apply (good_batch_applied cfg sp b sp' rb Hgb); [rewrite Hli; lia|exact HB]. }
       rewrite Hap, Nat2N.id.
-      assert (L1 : Nat.leb floor' (pos + len) = true) by (apply Nat.leb_le; exact Hfl').
+      assert (L1 : Nat.leb floor' (pos + len) = true) by (apply Nat.leb_le; rewrite <- Hbl; exact Hfl').
       assert (L2 : Nat.leb (pos + len) (pos + len) = true) by (apply Nat.leb_le; lia).
       rewrite L1, L2. cbn [andb].
       rewrite Hskip, Hrest.
       replace (dg sb) with (dg sb) by reflexivity.
-      apply (IH (skipn len es) (pos + len)%nat sb sp' floor' sfin rr); auto.
-      + rewrite <- Hrest. exact Hgr.
-      + rewrite <- Hrest. exact Hsr.
-      + rewrite skipn_length. lia.
+      rewrite Hrest in Hgr, Hsr.
+      apply (IH (skipn len es) (pos + len)%nat sb sp' floor' sfin rr);
+        [exact Hgr|exact E'|rewrite <- Hbl; exact Hfl'|exact Hsr|exact Hszr|rewrite skipn_length; lia].
   Qed.
 
   (* ---- the reference run as the monitor reads it ---------------------------------------------------------------------------------- *)
@@ -399,11 +398,14 @@ Section ModelCase.
                          /\ fold_right (fun s acc => (N.to_nat s + acc)%nat) 0%nat sizes = length es) szs ->
     C13_monitor (model_case es szs) = 0.
   Proof.
-    intros Hg Hs Hszs. unfold C13_monitor, model_case.
-    cbn [c_log c_ref c_d0 c_snaps c_parts c_cfg].
-    rewrite (ref_ok_model es 0 store_empty sfin rs _ Hg Hs eq_refl (or_intror I)).
-    unfold ref_complete. cbn [c_ref c_log].
-    rewrite (ref_run_length _ _ _ _ Hs), to_fcmds_length, Nat.eqb_refl. cbn [orb andb negb forallb].
+    intros Hg Hs Hszs. unfold C13_monitor.
+    set (c := model_case es szs).
+    assert (Hr : ref_ok c 0 (c_log c) (c_ref c) (c_d0 c) 0 = true).
+    { exact (ref_ok_model es 0 store_empty sfin rs c Hg Hs eq_refl (or_intror I)). }
+    assert (Hc : ref_complete c = true).
+    { unfold ref_complete. subst c. cbn [model_case c_ref c_log].
+      rewrite (ref_run_length _ _ _ _ Hs), to_fcmds_length, Nat.eqb_refl. reflexivity. }
+    rewrite Hr, Hc. cbn [andb negb]. subst c. cbn [model_case c_snaps forallb negb c_parts c_ref c_log c_d0].
     rewrite map_map. cbn [p_sizes p_obs].
     assert (Hall : forall sz, In sz szs ->
                walk (WSt 0 (dg store_empty) 0) (ref_run store_empty (to_fcmds 1 es)) es sz
@@ -411,7 +413,7 @@ Section ModelCase.
     { intros sz Hin. rewrite Forall_forall in Hszs. destruct (Hszs sz Hin) as (H1 & H2).
       apply (walk_model sz es 0 store_empty store_empty 0 sfin rs); auto.
       apply store_eqv_refl. }
-    clear Hszs. induction szs as [|sz szs IHs]; [reflexivity|].
+    clear Hszs Hr Hc. induction szs as [|sz szs IHs]; [reflexivity|].
     cbn [map max_code]. rewrite (Hall sz (or_introl eq_refl)).
     rewrite IHs; [reflexivity|]. intros sz' Hin. apply Hall. right. exact Hin.
   Qed.
